@@ -326,7 +326,7 @@ def check(run, repo, world):
                 raise AnalysisError(
                     "R-DT8-LANES: unrecognised byte expression %s in %s "
                     "(supported idioms: to_bytes(2, order)[i], & 0xff, "
-                    "% 256, >> 8, // 256)" % (unparse(y.arg(0)), F))
+                    "%% 256, >> 8, // 256)" % (unparse(y.arg(0)), F))
             needs_guard = needs_guard or bl[1]
             run.ob("R-DT8-LANES", "%s#%s" % (F, y.name), bl[0] == want,
                    "%s is loaded with byte %d of %s, must be byte %d" % (
